@@ -1,6 +1,7 @@
 SPECIFICATION Spec
 CONSTANTS
-  Versions = {761, 768, 769}
+  Versions = {761, 767, 768, 769}
+  FullVersions = {761, 767, 768, 769}
   MaxLen = 2
   InPlaceProfile = FALSE
 INVARIANTS Match Emit
